@@ -13,6 +13,10 @@ for pid in sys.argv[2:]:
     if not os.path.exists(d + '/wt'):
         subprocess.check_call(['git', '-C', '/repo', 'worktree', 'add', '--detach', d + '/wt', 'HEAD'], stdout=subprocess.DEVNULL, stderr=subprocess.DEVNULL)
     prior = []
+    if mode == 'benign':
+        os.makedirs(d + '/prior', exist_ok=True)
+        for r in sorted(glob.glob(f'/verif/seeded/{pid}-r[0-9]/README.md')):
+            n = os.path.basename(os.path.dirname(r)); shutil.copy(r, f'{d}/prior/{n}.md')
     if mode == 'break':
         os.makedirs(d + '/prior', exist_ok=True)
         for r in sorted(glob.glob(f'/verif/seeded/{pid}-[a-z]/README.md')):
@@ -97,7 +101,11 @@ promises a rounding tolerance* (reassociate a 3-term sum, Horner form, multiply 
 allows rounding error, compute a dot product in a different order), change what is returned for inputs OUTSIDE the documented
 domain (NaN payloads, sign of zero where the statement does not prescribe it, behaviour at singular or out-of-range inputs),
 change dispatch structure (call a sibling overload instead of duplicating code), replace a bit trick by an equivalent one,
-change internal helper names/signatures. Do NOT change anything the property statement fixes exactly (it says which results
+change internal helper names/signatures. If the files listed above (or the headers they include) contain a configuration-specific path - a SIMD kernel (`glm/simd/*.h`, `*_simd.inl`,
+aligned-qualifier specialisations), a pre-C++11 fallback branch (`#if !GLM_HAS_CXX11_STL`, `!GLM_HAS_INITIALIZER_LISTS`), a quaternion-order
+or handedness `#if` - make at least one of the two changes there (state the demo flags that compile it). Earlier benign rounds produced the
+changes described in the `prior/` directory next to this file, if it exists: do something different.
+Do NOT change anything the property statement fixes exactly (it says which results
 must be identical and which only within rounding). Each change must compile, pass all 185 tests, and you must ARGUE in the
 README why the property still holds after it (refer to the statement's wording). Keep each patch moderate (5-40 lines).
 Do not touch `test/`, CMake files or docs.
